@@ -12,5 +12,5 @@ CONSTANTS Principals = {"A", "B"}
           FilterOnOwner = TRUE
           FixedF8 = TRUE
           Person <- IdPerson
-INVARIANTS NoUnexplainedRead NoUnexplainedEffect NoUnexplainedResult ResultsMatchCode EndedNotRunning
+INVARIANTS NoUnexplainedRead NoUnexplainedEffect NoUnexplainedResult NoUnexplainedLoss ResultsMatchCode EndedNotRunning
 CHECK_DEADLOCK FALSE
